@@ -130,7 +130,8 @@ PROPS["C18"] = {
                   "from them. The log must show: reads confined to the region of one pinning conjunct plus at most one key beyond its end, "
                   "Get-only traffic when a conjunct is an equality/IN, and no Get/Next at all for clauses unsatisfiable on their face.",
     "level_note": "Trusted: instrumented store wrapper (lib/refstore.go). 'Unsatisfiable on its face' is decided syntactically from the "
-                  "property's list: constant false, disjoint key sets, prefixes that do not extend each other, disjoint closed ranges.",
+                  "property's list: constant false, disjoint key sets, prefixes that do not extend each other, disjoint closed ranges."
+                  " Round 11: one case in three (enumeration) / one in two (rapid) polls the drained plan one or two more times; the reads of those polls count.",
     "rule": "enumerated shapes x {row, batch 32, batch 3} (each emitted once) + rapid random stores/literals. Non-trivial = the store holds "
             "keys both below and above the region of the conjunct that covers the reads, or the clause is unsatisfiable on its face; "
             "distinct = distinct (statement, mode, batch size, store).",
@@ -159,7 +160,8 @@ PROPS["C05"] = {
                   "generated (not a use the property lists); duplicate alias names are not generated. ORDER BY ties are compared as multisets."
                   " Later widening: a field that is only a name (n as m) and repeated names (a later field reusing an earlier name of the same type) ARE generated now; names that need back quotes (blank, dash, capitals); aggregate fields built on the names of earlier aggregate or group fields. Leg TestC05NameKeyCollide draws names and keys from fragments with '-', ':' and digits; leg TestC05DynamicCache runs templates over JSON members in runs of one kind and only compares cache on against cache off within one mode (the reference has no semantics for JSON)."
                   " Round 5: chains of fields that are only names (n as z1, z1 as z2, ..), each inserted at a random place of the select list, in front of or behind the field it names."
-                  " Round 8: one aliased field in twelve takes the upper-case variant of an earlier name (t1 and `T1` are two names).",
+                  " Round 8: one aliased field in twelve takes the upper-case variant of an earlier name (t1 and `T1` are two names)."
+                  " Round 11: two more configurations per case create the execute context while the cache switch still has the other value (the switch is a package variable, a context copies it when it is created).",
     "rule": "rapid: store kind x size x batch size x 1-4 select fields (typed expressions, 75% named) x WHERE depth 0-3 with 35% alias bias; "
             "one in four statements is an aggregate grouped by named fields; one in three has ORDER BY. "
             "Non-trivial = a name is used in WHERE and, in key order, a pair the filter rejects precedes a pair it accepts "
@@ -249,7 +251,8 @@ PROPS["C15"] = {
                   "quote characters (the language has no escape syntax). Only pre-optimisation trees are round-tripped."
                   " Later widening: names that need back quotes in generated statements; leg TestC15Names: back-quoted names that are not select fields (capitals, blanks, operator characters, keywords, numbers) as arguments, list items and operands - the printed filter must parse to the same tree and select the same rows."
                   " Round 5: TestC15Names also enumerates every back-quoted name of up to 2 (thorough: 3) characters over 25 characters that matter to the lexer (comma, semicolon, brackets, quotes, operators, blank, tab)."
-                  " Round 8: one numeric BETWEEN in four has computed bounds, the lower one starting with a parenthesised sum ((a + b) * 1).",
+                  " Round 8: one numeric BETWEEN in four has computed bounds, the lower one starting with a parenthesised sum ((a + b) * 1)."
+                  " Round 10: one tree in eight is str(!b) - a call argument that begins with the unary operator; the shared text generator emits str(!is_int(x)) as well.",
     "rule": "enumerated operator sequences (each emitted once; typeable ones are cases) + rapid trees depth 1-5 x 4 parenthesis styles x random case, "
             "as WHERE or as select field. Non-trivial = the expression has at least two binary operators (precedence or associativity is exercised); "
             "distinct = distinct query texts.",
@@ -510,7 +513,8 @@ PROPS["C12"] = {
     "level_note": "Numbers are integers (float rendering is unspecified). Empty keys are outside the domain."
                   " Leg TestC12FloatKeys: float-valued key expressions (the reference has no text form for floats): remove e must delete exactly the key that put (e, ..) wrote. Key expressions no longer mention the key keyword (refused by the engine since repair 56 of DESIGN 8.1; C14 asserts the refusal)."
                   " Round 5: one PUT in ten has the key keyword inside the key expression of one of its pairs (any position): it must be refused before any storage call (spec.md: key only generates the value); one statement in six uses a member of a constant JSON object as an operand (only text members can be written)."
-                  " Round 7: integer literals with leading zeros (007 is the number 7) - in a third of the integer PUT keys and values, and now and then wherever an integer literal is drawn.",
+                  " Round 7: integer literals with leading zeros (007 is the number 7) - in a third of the integer PUT keys and values, and now and then wherever an integer literal is drawn."
+                  " Round 10: every case polled more than once is repeated against a store that refuses the write: the write is attempted exactly once however the plan is polled on, and nothing is stored.",
     "rule": "rapid single statements + histories. Non-trivial = a duplicate key, a value that depends on key, a REMOVE of an existing key, or a failing "
             "expression after a succeeding one; distinct = distinct (statement, prior state, polls).",
     "assumptions": COMMON_ASSUMPTIONS,
@@ -535,7 +539,8 @@ PROPS["C13"] = {
                   "entry i (no further storage call), and the drain must not end normally with a shortened result. Fault-free legs assert that SELECT issues "
                   "no mutating call at plan or execution time, and that statically rejected statements (C14's mutants) issue no storage call at all.",
     "level_note": "One fault per run (no fault sequences). The faulted operation is not applied by the store. The harness stops polling at the first error, as a caller would."
-                  " Round 9: the store hands out the SAME slices on every read, each with guarded spare capacity behind its content (canary bytes); after every SELECT the slices must still read what is stored and the spare capacity must be untouched - an in-place write or append into memory of the storage is found without relying on a second reader.",
+                  " Round 9: the store hands out the SAME slices on every read, each with guarded spare capacity behind its content (canary bytes); after every SELECT the slices must still read what is stored and the spare capacity must be untouched - an in-place write or append into memory of the storage is found without relying on a second reader."
+                  " Round 10: after a mutating statement has reported the injected fault its plan is polled three more times (both forms); no state-changing storage call may follow (what a SELECT reads when polled past an error is not judged). Round 11: the injected fault comes in three guises, a private error, one that wraps io.EOF and one that wraps io.ErrUnexpectedEOF (the contract signals the end of a cursor with a nil key, never with an error).",
     "rule": "rapid statements x stores (1-10 pairs) x batch size; per statement ALL fault positions x {row, batch} are enumerated. "
             "Non-trivial = the fault-free run makes at least 3 storage calls and the faulted call is not the last one; "
             "distinct = distinct (statement, store, batch size, mode, fault index).",
